@@ -4,6 +4,7 @@ C02, execution half — F2: the expression step and the induction on the referen
 import ZygoVerif.Proofs.SimF2Forms
 import ZygoVerif.Proofs.SimF2Tail
 import ZygoVerif.Proofs.SimF2Lazy
+import ZygoVerif.Proofs.SimF2Apply
 set_option linter.unusedSimpArgs false
 set_option linter.unusedVariables false
 namespace ZygoVerif.Sim
@@ -13,7 +14,7 @@ open ZygoVerif.Core ZygoVerif.VM
 
 theorem fclaimE_succ {n : Nat} (hE : FClaimE n) (hB : FClaimB n) (hC : FClaimC n) (hA : FClaimA n) (hU : FClaimU n)
     (hS : FClaimS n) (hN : FClaimN n) (hL : FClaimL n) (hP : FClaimP n) (hV : FClaimV n) (hF : FClaimF n)
-    (hG : ∀ k, n = k + 1 → FClaimG k) : FClaimE (n + 1) := by
+    (hG : ∀ k, n = k + 1 → ∀ name, hoB name → FClaimH k name) : FClaimE (n + 1) := by
   intro fnOk self e he isFn c gs r hc hfn m s rs env pre post hrel hgen hseg
   cases e with
   | int x =>
@@ -232,7 +233,7 @@ theorem fclaims_zero : FClaimE 0 ∧ FClaimB 0 ∧ FClaimC 0 ∧ FClaimA 0 ∧ F
     rw [Ref.evalCond]; trivial
   · intro args hargs fo lazyAt hfo i m s rs env hrel
     rw [Ref.evalArgs]; trivial
-  · intro m s₁ rs₁ env vid c vs D hrel hg hc hd hvs hlen
+  · intro m s₁ rs₁ env vid c vs D f₀ hrel hg hc hd hvs hlen
     rw [Ref.applyFn]; trivial
   · intro fnOk self isOr es hes isFn c gs r hc hfn m s rs env pre post hrel hgen hseg
     rw [Ref.evalAndOr]; trivial
@@ -250,7 +251,7 @@ theorem fclaims_zero : FClaimE 0 ∧ FClaimB 0 ∧ FClaimC 0 ∧ FClaimA 0 ∧ F
 
 theorem fclaims : ∀ n, FClaimE n ∧ FClaimB n ∧ FClaimC n ∧ FClaimA n ∧ FClaimU n ∧ FClaimS n ∧ FClaimN n ∧ FClaimL n
     ∧ FClaimP n ∧ FClaimV n ∧ FClaimF n ∧ TClaimV n ∧ TClaimE n ∧ TClaimB n ∧ TClaimC n ∧ TClaimN n
-    ∧ XClaimE n ∧ XClaimB n ∧ XClaimC n ∧ XClaimN n ∧ XClaimF n ∧ (∀ j, j < n → FClaimE j)
+    ∧ XClaimE n ∧ XClaimB n ∧ XClaimC n ∧ XClaimN n ∧ XClaimF n ∧ (∀ j, j < n → FClaimE j ∧ FClaimU j)
   | 0 => by
     obtain ⟨hE, hB, hC, hA, hU, hS, hN, hL, hP, hV, hF⟩ := fclaims_zero
     obtain ⟨tV, tE, tB, tC, tN⟩ := tclaims_zero
@@ -258,9 +259,9 @@ theorem fclaims : ∀ n, FClaimE n ∧ FClaimB n ∧ FClaimC n ∧ FClaimA n ∧
     exact ⟨hE, hB, hC, hA, hU, hS, hN, hL, hP, hV, hF, tV, tE, tB, tC, tN, xE, xB, xC, xN, xF, fun j hj => absurd hj (Nat.not_lt_zero j)⟩
   | n + 1 => by
     obtain ⟨hE, hB, hC, hA, hU, hS, hN, hL, hP, hV, hF, tV, tE, tB, tC, tN, xE, xB, xC, xN, xF, hlow⟩ := fclaims n
-    -- a call of `force` at this fuel evaluates the thunk's expression with less fuel
-    have hG : ∀ k, n = k + 1 → FClaimG k := fun k hk => by
-      subst hk; exact fclaimG (fun j hj => hlow j (Nat.lt_succ_of_lt hj)) hA
+    -- a call of `force`, `apply`, `map` at this fuel runs thunks and closure bodies with less fuel
+    have hG : ∀ k, n = k + 1 → ∀ name, hoB name → FClaimH k name := fun k hk => by
+      subst hk; exact fclaimH hlow hA
     have hE1 := fclaimE_succ hE hB hC hA hU hS hN hL hP hV hF hG
     have xE1 := xclaimE_succ hE1 hE hL hP xE xB xC xN xF
     exact ⟨hE1, fclaimB_succ hE hB, fclaimC_succ hE hC, fclaimA_succ hE hA,
@@ -271,7 +272,7 @@ theorem fclaims : ∀ n, FClaimE n ∧ FClaimB n ∧ FClaimC n ∧ FClaimA n ∧
       fun j hj => by
         rcases Nat.lt_succ_iff_lt_or_eq.mp hj with h | h
         · exact hlow j h
-        · subst h; exact hE⟩
+        · subst h; exact ⟨hE, hU⟩⟩
 
 /-- **Segment lemma for F2 expressions.** -/
 theorem segment_Ff (fnOk : Bool) (self : String) (e : Expr) (he : Ff fnOk self e = true) (isFn : Nat → Bool) (c : Ctx)
